@@ -119,6 +119,8 @@ def run(c, chk):
     chk.floor('R9.5 removing paths', nrm, 1)
 
     copy_before_release(c, chk, ex)
+    titles_may_be_null(c, chk, ex)
+    untitled_does_not_end_search(c, chk, ex)
     unique_titles(c, chk, ex)
 
     # ---- R9.3 --------------------------------------------------------------------------------
@@ -207,6 +209,71 @@ def copy_before_release(c, chk, ex):
         else:
             chk.ok('R9.6', fname, 'the argument is duplicated before anything is released', sample=(fname == 'cfg_opt_setnstr'))
     chk.floor('R9.6 argument copies', n, 3)
+
+
+def titles_may_be_null(c, chk, ex):
+    """R9.8: a section of a titled option can exist without a title (the first one may be created with NULL): every place
+    that compares titles first makes sure the stored title is there, as the title lookups do"""
+    chk.rule('R9.8', 'a stored section title is compared only after it was tested against NULL (an untitled first section is allowed to exist)')
+    n = 0
+    for f in c.confuse.funcs.values():
+        if f.name in c.unknown_funcs:
+            continue
+        if not any(True for _ in c.deep_calls(f, 'strcmp')) and not any(True for _ in c.deep_calls(f, 'strcasecmp')):
+            continue
+        bad = None
+        for p in ex.explore(f):
+            for e in p.events:
+                if e.kind == 'call' and e.name in ('strcmp', 'strcasecmp'):
+                    for a in e.args:
+                        if a[0] == 'ld' and a[1][0] == 'fld' and a[1][3] == 'title' and a[1][2] == 'cfg_t':
+                            n += 1
+                            known = any((lambda na: na is not None and sym.norm(na[0]) == sym.norm(a) and na[1] is False)(fp_null(cn, t)) for cn, t, _ in p.assume[:e.seq])
+                            if not known:
+                                bad = bad or e
+        if bad is not None:
+            chk.fail('R9.8', 'title-null:%s' % f.name, c.where(bad.ins), '%s() passes a stored section title to %s() without having tested it against NULL: after '
+                     'cfg_addtsec(cfg, name, NULL) created an untitled section, the next titled add or parse of that option crashes' % (f.name, bad.name))
+    chk.ok('R9.8', '%d title comparisons' % n, 'each after a NULL test of the stored title (violations listed)', sample=True)
+    chk.floor('R9.8 title comparisons (path instances)', n, 4)
+
+
+def untitled_does_not_end_search(c, chk, ex):
+    """R9.9: a search by title looks at every section: one without a title is passed over, it does not end the search"""
+    from .. import loops as _loops, cfg as _cfg
+    chk.rule('R9.9', 'a search by title passes over a section without a title and goes on (it does not answer "not found" for the sections behind it)')
+    n = 0
+    for fname in ('cfg_setopt', 'cfg_opt_gettsecidx', 'cfg_opt_rmtsec'):
+        f = c.func(fname)
+        if f is None:
+            continue
+        bad = None
+        for g in c.deep_funcs(f):
+            for h in sorted(_cfg.natural_loops(g)):
+                try:
+                    paths = list(_loops.iterate(ex, g, h))
+                except sym.AnalysisIncomplete:
+                    continue
+                for p in paths:
+                    untitled = any((lambda na: na is not None and na[1] is True and na[0][0] == 'ld' and na[0][1][0] == 'fld' and na[0][1][3] == 'title'
+                                    and na[0][1][2] == 'cfg_t')(fp_null(cn, t)) for cn, t, _ in p.assume)
+                    if not untitled:
+                        continue
+                    n += 1
+                    if p.end != 'stop':
+                        bad = bad or (g, p)
+        if bad:
+            g, p = bad
+            chk.fail('R9.9', 'untitled-ends-search:%s' % fname, c.where(g), '%s() stops searching when it meets a section without a title: titled sections behind it are '
+                     'not found (cfg_gettsec() fails, cfg_addtsec() replaces an existing section)' % fname)
+        else:
+            chk.ok('R9.9', fname, 'an untitled section is passed over', sample=(fname == 'cfg_opt_gettsecidx'))
+    chk.floor('R9.9 untitled-section paths', n, 3)
+
+
+def fp_null(cn, t):
+    from ..failpaths import is_null_assumption
+    return is_null_assumption(cn, t)
 
 
 def unique_titles(c, chk, ex):
